@@ -153,3 +153,85 @@ Proof.
 Qed.
 
 End CbText.
+
+(* ---------- two blocks (PTYN, RT 2A): "changed" = c1 || c2 = the cell list differs afterwards ---------- *)
+Section TwoBlocks.
+Variable conv : Z -> Z.
+
+Lemma cells_eqb_refl a : cells_eqb a a = true.
+Proof. apply cells_eqb_eq. reflexivity. Qed.
+
+Lemma two_blocks info data pr eb e1 e2 p w1 w2 cs : (S (S (S p)) < length cs)%nat ->
+  let a1 := write2 conv info data pr eb e1 p w1 cs in
+  let a2 := write2 conv info data pr eb e2 (S (S p)) w2 a1 in
+  changed2 conv info data pr eb e1 p w1 cs || changed2 conv info data pr eb e2 (S (S p)) w2 a1
+  = negb (cells_eqb a2 cs).
+Proof.
+  intros Hl a1 a2.
+  assert (L1 : length a1 = length cs) by apply write2_length.
+  rewrite (changed2_spec conv (fun _ _ => 0) _ _ _ _ _ _ _ cs) by lia.
+  rewrite (changed2_spec conv (fun _ _ => 0) _ _ _ _ _ _ _ a1) by (rewrite L1; lia).
+  fold a1 a2.
+  destruct (cells_eqb a1 cs) eqn:E1; cbn [negb orb].
+  - apply cells_eqb_eq in E1. rewrite E1. reflexivity.
+  - symmetry. apply negb_true_iff. destruct (cells_eqb a2 cs) eqn:E2; [|reflexivity].
+    apply cells_eqb_eq in E2. exfalso.
+    assert (a1 = cs).
+    { apply (nth_ext a1 cs (0, 0) (0, 0) L1). intros i Hi.
+      destruct (Nat.eq_dec i p) as [->|N1]; [|destruct (Nat.eq_dec i (S p)) as [->|N2]].
+      - transitivity (nth p a2 (0, 0)); [|rewrite E2; reflexivity]. unfold a2. rewrite write2_other by lia. reflexivity.
+      - transitivity (nth (S p) a2 (0, 0)); [|rewrite E2; reflexivity]. unfold a2. rewrite write2_other by lia. reflexivity.
+      - unfold a1. apply write2_other; assumption. }
+    rewrite H in E1. rewrite cells_eqb_refl in E1. discriminate.
+Qed.
+
+End TwoBlocks.
+
+Section CbText2.
+Variable conv : Z -> Z.
+Variable lut : Z -> Z -> Z.
+
+Lemma fields_group_parse g : fields_in [FPI; FPTY; FTP] (group_parse g).
+Proof.
+  unfold group_parse. apply fields_andthen; [apply fields_when; eapply fields_weaken; [apply fields_set_scalar|]; intros x [<-|[]]; cbn; tauto|].
+  apply fields_when, fields_andthen; eapply fields_weaken; try apply fields_set_scalar; intros x [<-|[]]; cbn; tauto.
+Qed.
+
+(* C04 for PTYN, group 10A *)
+Theorem ptyn_callbacks_10A g s : Inv conv s -> wf_group g -> b_group (gb g) = 10 -> b_ver (gb g) = 0 ->
+  filter (isf FPTYN) (snd (process conv lut g s)) = text_formula FPTYN (ptyn s) (ptyn (fst (process conv lut g s))) s.
+Proof.
+  intros I Hwf G10 V0. pose proof Hwf as [Ha [Hb [Hc [Hd [Hea [Heb [Hec Hed]]]]]]]. unfold blk_ok, err_ok in *.
+  unfold text_formula. unfold process. rewrite andthen_snd, andthen_fst, filter_app.
+  rewrite (filter_fields FPTYN [FPI; FPTY; FTP] (group_parse g) s (fields_group_parse g)) by (cbn; intuition discriminate).
+  cbn [app].
+  destruct (group_parse_frame conv g s I) as [I1 [C1 T1]]. cbv zeta in I1, C1, T1.
+  set (s1 := fst (group_parse g s)) in *.
+  unfold dispatch. cbv zeta. rewrite (get_group_spec _ Hb), (get_flag_spec _ Hb), G10, V0. cbn [Z.eqb Pos.eqb].
+  unfold group10_parse. cbv zeta. cbn [Z.eqb Pos.eqb].
+  destruct (pos_ptyn_ok conv lut (gb g) Hb) as [P1 P2].
+  destruct (upd_string_spec conv TPTYN (gc g) (eb g) (ec g) (Z.to_nat (4 * get_ptyn_pos (gb g))) s1 I1 Hc ltac:(lia) ltac:(lia) P1)
+    as [t1 [E1 Ct1]]. cbv zeta in E1, Ct1. rewrite E1.
+  assert (I2 : Inv conv (set_text TPTYN t1 s1)).
+  { pose proof (upd_string_inv conv lut TPTYN (gc g) (eb g) (ec g) (Z.to_nat (4 * get_ptyn_pos (gb g))) s1 I1 Hc ltac:(lia) ltac:(lia) P1) as H.
+    rewrite E1 in H. exact H. }
+  destruct (upd_string_spec conv TPTYN (gd g) (eb g) (ed g) (Z.to_nat (4 * get_ptyn_pos (gb g) + 2)) _ I2 Hd ltac:(lia) ltac:(lia) P2)
+    as [t2 [E2 Ct2]]. cbv zeta in E2, Ct2. rewrite E2. cbn [fst snd].
+  destruct (P_txt_fields _ _ T1) as [_ [_ [_ [S4 _]]]].
+  destruct (P_set_fields _ _ C1) as [V1 [V2 [V3 V4]]].
+  cbn [set_text with_ptyn ptyn get_text tid_of prog corr cb ud] in *.
+  unfold text_event.
+  assert (Hpp : 0 <= get_ptyn_pos (gb g) <= 1).
+  { rewrite (get_ptyn_pos_spec _ Hb). pose proof (Z.mod_pos_bound (gb g) 2 ltac:(lia)). lia. }
+  replace (Z.to_nat (4 * get_ptyn_pos (gb g) + 2)) with (S (S (Z.to_nat (4 * get_ptyn_pos (gb g))))) in * by lia.
+  rewrite Ct1.
+  assert (Hlen : (S (S (S (Z.to_nat (4 * get_ptyn_pos (gb g))))) < length (cells (ptyn s1)))%nat).
+  { unfold cells. rewrite map_length. destruct (inv_ptyn conv s1 I1) as [Hl _]. rewrite Hl. lia. }
+  rewrite (two_blocks conv _ _ _ _ _ _ _ _ _ _ Hlen). cbv zeta. rewrite <- Ct1, <- Ct2, S4.
+  unfold emit. cbn [cb ud with_ptyn ptyn]. rewrite V3, V4.
+  destruct (negb (cells_eqb (cells t2) (cells (ptyn s)))); cbn [andb]; [|reflexivity].
+  destruct (cb s FPTYN =? 0); cbn [negb filter]; [reflexivity|].
+  rewrite filter_isf_self by reflexivity. reflexivity.
+Qed.
+
+End CbText2.
